@@ -85,7 +85,7 @@ func c20Traffic(c *core.Ctx, o C20Options) []string {
 	host := w.Nodes[0]
 	bf := AddBscClient(c, w, host, "bsc-chain1", 0)
 	ef := AddEthClient(c, w, host, "eth-chain1", 0)
-	steps := 50 + ch.Int(50)
+	steps := (50 + ch.Int(50)) * c.Scale
 	govDone := false
 	for i := 0; i < steps; i++ {
 		c.Step("c20")
@@ -181,6 +181,7 @@ type C20ChildSpec struct {
 	Scenario string        `json:"scenario"`
 	Tape     *chooser.Tape `json:"tape"`
 	Options  C20Options    `json:"options"`
+	Scale    int           `json:"scale,omitempty"`
 }
 
 // C20Child executes a spec and returns the prints (used by `tibcsim c20child`).
@@ -190,7 +191,7 @@ func C20Child(spec *C20ChildSpec) ([]string, error) {
 		return nil, fmt.Errorf("unknown scenario %q", spec.Scenario)
 	}
 	var prints []string
-	p := &core.Profile{Name: "c20-child", Property: "C20", Run: func(c *core.Ctx) { prints = f(c, spec.Options) }}
+	p := &core.Profile{Name: "c20-child", Property: "C20", Scale: spec.Scale, Run: func(c *core.Ctx) { prints = f(c, spec.Options) }}
 	res := core.Execute(p, chooser.NewReplayer(spec.Tape), nil, "child", false)
 	if res.Err != "" {
 		return nil, fmt.Errorf("%s", res.Err)
@@ -272,7 +273,7 @@ func runC20(c *core.Ctx) {
 	case "none":
 		opts = C20Options{}
 	}
-	p := &core.Profile{Name: "c20-inproc", Property: "C20", Run: func(cc *core.Ctx) { second = c20Traffic(cc, opts) }}
+	p := &core.Profile{Name: "c20-inproc", Property: "C20", Scale: c.Scale, Run: func(cc *core.Ctx) { second = c20Traffic(cc, opts) }}
 	res := core.Execute(p, chooser.NewReplayer(tape), c.Known, "inproc", false)
 	if res.Err != "" {
 		c.Failf("in-process re-execution failed: %s", res.Err)
@@ -283,7 +284,7 @@ func runC20(c *core.Ctx) {
 	w1.Stats.Inc("reexec-inprocess-noise-restart")
 	comparePrints(c, "same-process-noise-restart", first, second)
 	// (b): fresh OS processes under other runtime / environment settings
-	spec := &C20ChildSpec{Scenario: "traffic", Tape: tape}
+	spec := &C20ChildSpec{Scenario: "traffic", Tape: tape, Scale: c.Scale}
 	third, _ := runChild(c, spec, []string{"GOMAXPROCS=1", "TZ=Pacific/Kiritimati", "HOME=/nonexistent-home", "TMPDIR=/nonexistent-tmp"})
 	w1.Stats.Inc("reexec-process-gomaxprocs1")
 	comparePrints(c, "other-process-gomaxprocs1-env", first, third)
